@@ -91,6 +91,7 @@ def gen_spec(rng, malformed, tr_type):
 
 def gen_case(rng: random.Random, malformed: bool):
     world = gen_world(rng)
+    hand = [rng.random() < 0.4 for _ in world]       # layers built by hand through the public Layer API
     ntr = rng.choice([1, 1, 2, 2, 2, 3])
     trainers = [copy.deepcopy(rng.choice(TYPES)) for _ in range(ntr)]
     if ntr >= 2 and rng.random() < 0.35:           # the eligibility-trace trainer next to a plain one
@@ -107,7 +108,8 @@ def gen_case(rng: random.Random, malformed: bool):
             break
         t = rng.choice(live)
         k = rng.choice(["reg"] * 7 + ["delcell"] * 2 + ["addmon"] * 3 + ["delmon"] * 2 + ["tmode"] * 3 +
-                       ["lmode"] * 2 + ["lstep"] * 10 + ["tstep"] * 3 + ["clear"] + (["drop"] if rng.random() < 0.15 else []))
+                       ["lmode"] * 2 + ["lstep"] * 10 + ["tstep"] * 3 + ["clear"] + ["getcell"] * 2 +
+                       (["drop"] if rng.random() < 0.15 else []))
         if k == "reg":
             free = [n for n in range(4) if n not in regd[t]]
             cn = rng.choice(free) if free and not (malformed and rng.random() < 0.2) else rng.randint(0, 3)
@@ -116,7 +118,7 @@ def gen_case(rng: random.Random, malformed: bool):
                 cell = rng.choice(near)
             else:
                 cell = rng.choice(cells)
-            ops.append(["reg", t, cn, cell, rng.choice([0, 0, 0, 1])])
+            ops.append(["reg", t, cn, cell, rng.choice([0, 0, 0, 1, 10, 100, 1000, 1001])])
             regd[t].setdefault(cn, cell)
         elif k == "delcell":
             have = list(regd[t])
@@ -132,6 +134,9 @@ def gen_case(rng: random.Random, malformed: bool):
             cn = rng.choice(have) if have else rng.randint(0, 3)
             mn = rng.choice(TYPE_NAMES[trainers[t][0]] + [20, 21]) if not (malformed and rng.random() < 0.3) else 22
             ops.append(["delmon", t, cn, mn])
+        elif k == "getcell":
+            c = rng.choice([x for r in regd for x in r.values()] or cells)
+            ops.append(["getcell", c[0], c[1], c[2], rng.randrange(3)])
         elif k == "tmode":
             ops.append(["tmode", t, rng.random() < 0.55])
         elif k == "lmode":
@@ -145,7 +150,7 @@ def gen_case(rng: random.Random, malformed: bool):
         elif k == "drop":
             ops.append(["drop", t])
             alive[t] = False
-    return {"world": world, "trainers": trainers, "ops": ops}
+    return {"world": world, "trainers": trainers, "ops": ops, "hand": hand}
 
 
 def gen_cases(rng, n):
@@ -216,6 +221,43 @@ def strip_case(rng: random.Random, ty):
 
 def strip_cases(rng, per_type):
     return [strip_case(rng, ty) for _ in range(per_type) for ty in TYPES]
+
+
+def hyper_cases():
+    """cells that share a neuron group or a connection, registered with per-cell hyperparameter overrides that differ
+    in exactly ONE hyperparameter (each in turn), for every trainer configuration: monitors whose reducer configuration
+    differs must be distinct objects, equal ones are pooled"""
+    world = [[[[1, False], [1, False]], 2]]
+    cases = []
+    for ty in TYPES:
+        for hp in (0, 1, 10, 100, 1000):
+            for second in ([0, 1, 0], [0, 0, 1]):          # shares the neuron group / shares the connection
+                for first_hp in ((0, hp), (hp, 0)):
+                    ops = [["reg", 0, 0, [0, 0, 0], first_hp[0]], ["reg", 0, 1, second, first_hp[1]], ["lstep", 0],
+                           ["lstep", 0], ["tmode", 0, False], ["tmode", 0, True], ["lstep", 0]]
+                    cases.append({"world": world, "trainers": [copy.deepcopy(ty)], "ops": ops})
+    return cases
+
+
+def getcell_cases(rng, n):
+    """layers built by hand (connection names differ from neuron names): registered cells are fetched again through
+    add_cell / get_cell / layer.cells while training goes on"""
+    cases = []
+    for k in range(n):
+        world = [[[[1, False], [1, rng.random() < 0.3]], 2]]
+        ty = copy.deepcopy(TYPES[k % len(TYPES)])
+        cell = rng.choice([[0, 0, 0], [0, 1, 1], [0, 0, 1], [0, 1, 0]])
+        ops = [["reg", 0, 0, cell, 0], ["lstep", 0]]
+        if rng.random() < 0.5:
+            ops.append(["reg", 0, 1, [0, 1 - cell[1], 1 - cell[2]], 0])
+        for _ in range(rng.randint(1, 3)):
+            c = rng.choice([cell, cell, [0, 1 - cell[1], 1 - cell[2]], [0, cell[1], 1 - cell[2]]])
+            ops.append(["getcell", c[0], c[1], c[2], rng.choice([0, 0, 1, 2])])
+            ops.append(["lstep", 0])
+        ops += [["tstep", 0], ["lstep", 0], ["delcell", 0, 0], ["getcell", 0, cell[1], cell[2], 0],
+                ["reg", 0, 0, cell, 0], ["lstep", 0]]
+        cases.append({"world": world, "trainers": [ty], "ops": ops, "hand": [k % 4 != 3]})
+    return cases
 
 
 def strip_exhaustive():
@@ -314,6 +356,9 @@ def q_op(op):
         return f"Clear {op[1]}"
     if k == "drop":
         return f"DropTrainer {op[1]}"
+    if k == "getcell":
+        return "Clear 99"        # fetching an existing cell again has NO effect in the model (an operation on a
+                                 # trainer that does not exist leaves the state unchanged; its error code is ignored)
     raise AssertionError(k)
 
 
@@ -339,19 +384,21 @@ def canon_model(tm, case):
             else:
                 trs2.append([t[0], [[a, list(c)] for a, c in t[1]], [list(x) for x in t[2]], list(t[3])])
         ms2 = [[m[0], m[1], m[2], [[o[0], [[r[0], list(r[1])] for r in o[1]]] for o in m[3]]] for m in ms]
-        out.append([err_class(e, op), [list(l) for l in lays], trs2, ms2, [[list(x) for x in c] for c in cm], list(acc)])
+        out.append([err_class(e, op, True), [list(l) for l in lays], trs2, ms2, [[list(x) for x in c] for c in cm], list(acc)])
     return out
 
 
-def err_class(code, op):
+def err_class(code, op, model=False):
     if op[0] in ("lstep", "tstep"):
         return 1 if code else 0
+    if op[0] == "getcell" and model:
+        return 0
     return code
 
 
 def canon_impl(ti, case):
     out = []
-    for (code, snap, _msg), op in zip(ti, case["ops"]):
+    for (code, snap, _msg, *_rest), op in zip(ti, case["ops"]):
         lays, trs, ms, cm, acc = snap
         out.append([err_class(code, op), lays, trs, ms, cm, acc])
     return out
@@ -458,8 +505,13 @@ def oracle_case(case, ti):
         fails.setdefault(kind, {"detail": dict(detail, step=step, op=case["ops"][step]), "signature": {"kind": kind}})
 
     binders = {}                 # cell -> set of trainers that registered it / added monitors on it
-    for j, (op, (code, snap, msg)) in enumerate(zip(case["ops"], ti)):
+    for j, (op, (code, snap, msg, *rest)) in enumerate(zip(case["ops"], ti)):
         raised = code != 0
+        if op[0] == "getcell" and raised:
+            fail("cell_replaced", j, {"what": "fetching an existing cell again did not return the same Cell", "message": msg})
+        if rest and rest[0]:
+            fail("monitor_config", j, {"what": "a cell's trace monitor does not carry that cell's hyperparameters "
+                                               "[trainer, cell, monitor, (|amplitude|, tc) found, expected]", "bad": rest[0][:4]})
         lays, trs, ms, cm, acc = snap
         # --- bookkeeping that needs the state before the op
         if op[0] in ("delcell", "delmon") and not raised:
@@ -614,6 +666,8 @@ def run(ctx):
     n = 300 if ctx["tier"] == "quick" else 3000
     cases = load_corpus() + witness_cases() + gen_cases(rng, n)
     cases += strip_cases(rng, 4 if ctx["tier"] == "quick" else 30)
+    cases += getcell_cases(rng, 22 if ctx["tier"] == "quick" else 220)
+    cases += hyper_cases()
     exhaustive = False
     if ctx["tier"] == "thorough":
         cases += exhaustive_cases() + strip_exhaustive()
@@ -649,7 +703,10 @@ def run(ctx):
                 "11 shipped configurations; 1-2 Biclique layers with 1-2 connections x 1-2 neuron groups, so cells share "
                 "neurons and connections; every 4th case from a malformed stream); plus a 'strip' stream for every one of "
                 "the 11 trainer configurations (all monitors of a registered cell deleted one by one, monitors re-added "
-                "under the same and new names, layer calls, del_cell, register again); non-trivial = registers, steps and "
+                "under the same and new names, layer calls, del_cell, register again), a 'hyper' stream (two cells sharing a "
+                "neuron group or a connection whose per-cell overrides differ in exactly one hyperparameter) and a "
+                "'getcell' stream (hand-built Layer subclass, cells fetched again via add_cell / get_cell / layer.cells); "
+                "non-trivial = registers, steps and "
                 ">=3 op kinds; distinct by full case text"
                 + ("; plus every sequence of depth<=3 over an 11-op alphabet for two trainer pairings and of depth 4 over a "
                    "7-op alphabet for MSTDPET next to STDP; every depth<=4 sequence over an 8-op alphabet around deleting a "
